@@ -185,17 +185,26 @@ theorem OA_confirm_whole {k : Key} {a : Apdu} (hid : a.invokeId = k.id) (hns : a
 /-- the first segment of the response opens the reassembly buffer -/
 theorem recvBuf_first (g : p.Geo cfg cfgB dev devB) {a : Apdu} {b : Body} {w : Nat}
     (h3 : a.ty = 3) (hi : a.invokeId = p.id) (hseg : a.seg = true) (hseq : a.seq = 0)
-    (hg : Genuine p.TR a) (hctx : b.ctx = some a) (hl : b.lastSeq = 0) (hw : b.window = some w) :
-    RecvBuf p.TR b := by
+    (hg : GenuineN p.TR (fun i => i < 256) a) (hctx : b.ctx = some a) (hl : b.lastSeq = 0)
+    (hw : b.window = some w) : RecvBuf p.TR b := by
   have hg' := hg h3 hi
   have hn1 : p.TR.count ≠ 1 := by
     intro h1; have := (hg'.1 h1).1; rw [hseg] at this; cases this
-  obtain ⟨_, i, his⟩ := hg'.2 hn1
-  have hi0 : i = 0 := first_index g.leR his hseq
+  obtain ⟨_, i, his, hlt⟩ := hg'.2 hn1
+  have hi0 : i = 0 := first_index his hlt hseq
   subst hi0
   have hpos := g.wfR.pos
-  refine ⟨a, 0, w, hctx, by omega, hl, ?_, hw⟩
+  refine ⟨0, a, w, hctx, by omega, hl, ?_, hw⟩
   rw [his.data]; simp [slicesUpTo]
+
+/-- before the transaction receives, what it is handed is one of the first 256 segments -/
+theorem genuine_first {b : Body} {a : Apdu} (hst : b.st ≠ .segConf)
+    (h : GenuineN p.TR (NearC p.TR b) a) : GenuineN p.TR (fun i => i < 256) a := by
+  intro h1 h2
+  obtain ⟨g1, g2⟩ := h h1 h2
+  refine ⟨g1, fun hn => ?_⟩
+  obtain ⟨s1, i, hi, hN⟩ := g2 hn
+  exact ⟨s1, i, hi, hN.2 hst⟩
 
 /-! ### SEGMENTED_REQUEST -/
 
@@ -204,7 +213,7 @@ theorem A_segReq (g : p.Geo cfg cfgB dev devB) {now : Nat} {k : Key} {b : Body} 
     (hf : (specA p cfg dev).FC k b a) :
     Local.HRes (specA p cfg dev).CI (specA p cfg dev).OO k (clientSegmentedRequest cfg now k b a) := by
   have hc : SendCtx p cfg dev k b := hci.1 (Or.inl hst)
-  have hgen : k = p.kA → a.ty = 3 → Genuine p.TR a := hf
+  have hgen : k = p.kA → a.ty = 3 → Genuine p.TR a := fun hk h3 => (hf hk h3).genuine
   unfold clientSegmentedRequest
   split
   · dsimp only
@@ -236,7 +245,8 @@ theorem A_segReq (g : p.Geo cfg cfgB dev devB) {now : Nat} {k : Key} {b : Body} 
               refine some_res (CIA_recv rfl ⟨a, rfl, hid, ?_⟩) all_nil
               intro hk
               have hi : a.invokeId = p.id := by rw [hid, hk]; rfl
-              exact recvBuf_first g h3 hi hseg hseq' (hgen hk h3) rfl rfl rfl
+              exact recvBuf_first g h3 hi hseg hseq'
+                (genuine_first (by rw [hst]; decide) (hf hk h3)) rfl rfl rfl
       · split
         · rename_i h567
           have : a.ty = 5 ∨ a.ty = 6 ∨ a.ty = 7 := by simp at h567; omega
@@ -250,7 +260,7 @@ theorem A_awaitConf (g : p.Geo cfg cfgB dev devB) {now : Nat} {k : Key} {b : Bod
     (hf : (specA p cfg dev).FC k b a) :
     Local.HRes (specA p cfg dev).CI (specA p cfg dev).OO k (clientAwaitConfirmation cfg now k b a) := by
   have hc : SendCtx p cfg dev k b := hci.1 (Or.inr hst)
-  have hgen : k = p.kA → a.ty = 3 → Genuine p.TR a := hf
+  have hgen : k = p.kA → a.ty = 3 → Genuine p.TR a := fun hk h3 => (hf hk h3).genuine
   unfold clientAwaitConfirmation
   split
   · exact none_res (all_one (OA_confirm (by omega)))
@@ -273,7 +283,8 @@ theorem A_awaitConf (g : p.Geo cfg cfgB dev devB) {now : Nat} {k : Key} {b : Bod
                 (all_one (OA_send_ctl (by simp [mkSegAck])))
               intro hk
               have hi : a.invokeId = p.id := by rw [hid, hk]; rfl
-              exact recvBuf_first g h3 hi hseg hseq (hgen hk h3) rfl rfl rfl
+              exact recvBuf_first g h3 hi hseg hseq
+                (genuine_first (by rw [hst]; decide) (hf hk h3)) rfl rfl rfl
             · exact abortBoth_A _ _
       · split
         · exact some_res (CIA_send (Or.inr hst) hc) all_nil
@@ -318,10 +329,11 @@ theorem A_segConf (g : p.Geo cfg cfgB dev devB) {now : Nat} {k : Key} {b : Body}
         have hwf := g.wfR
         have hn1 : p.TR.count ≠ 1 := by
           intro h1; have := (hgen.1 h1).1; rw [hseg] at this; cases this
-        obtain ⟨_, i, hi⟩ := hgen.2 hn1
-        obtain ⟨c', j, w', hc', hj, hl, hd, hw'⟩ := hbuf hk
+        obtain ⟨_, i, hi, hnear⟩ := hgen.2 hn1
+        obtain ⟨j, c', w', hc', hj, hl, hd, hw'⟩ := hbuf hk
+        have hnj := hnear.1 hst j ⟨c', w', hc', hj, hl, hd, hw'⟩
         rw [hctx] at hc'; cases hc'
-        have hij : i = j + 1 := next_index g.leR hi hj (by rw [hs, hl])
+        have hij : i = j + 1 := next_index hi hnj (by rw [hs, hl])
         subst hij
         cases hm : a.mor with
         | false =>
@@ -341,8 +353,8 @@ theorem A_segConf (g : p.Geo cfg cfgB dev devB) {now : Nat} {k : Key} {b : Body}
             have hm' := hi.mor
             rw [hm] at hm'
             have hlt : j + 1 + 1 < p.TR.count := by simpa using hm'.symm
-            refine ⟨_, j + 1, w, hb1, hlt, ?_, ?_, hb4.trans hw⟩
-            · rw [hb2, hl]; exact Nat.mod_eq_of_lt (by have := g.leR; simp only [Params.TR] at hlt; omega)
+            refine ⟨j + 1, _, w, hb1, hlt, ?_, ?_, hb4.trans hw⟩
+            · rw [hb2, hl]; omega
             · show c.data ++ a.data = _
               rw [hd]; exact buf_append hi
           · intro o ho'; rw [ho o ho']; exact hack _ _
@@ -364,8 +376,8 @@ theorem A_segConf (g : p.Geo cfg cfgB dev devB) {now : Nat} {k : Key} {b : Body}
       subst hr; subst ho
       refine some_res (CIA_recv (hb3.trans hst) ⟨c, hb1.trans hctx, hcid, ?_⟩) (all_one (hack _ _))
       intro hk
-      obtain ⟨c', j, w', hc', hj, hl, hd, hw'⟩ := hbuf hk
-      exact ⟨c', j, w', hb1.trans hc', hj, hb2.trans hl, hd, hb4.trans hw'⟩
+      obtain ⟨j, c', w', hc', hj, hl, hd, hw'⟩ := hbuf hk
+      exact ⟨j, c', w', hb1.trans hc', hj, hb2.trans hl, hd, hb4.trans hw'⟩
 
 theorem A_confirmation (g : p.Geo cfg cfgB dev devB) {now : Nat} {k : Key} {b : Body} {a : Apdu}
     (hci : (specA p cfg dev).CI k b) (hid : a.invokeId = k.id) (hf : (specA p cfg dev).FC k b a) :
